@@ -325,7 +325,13 @@ def cases(tier, seed):
         # without any space the string preprocessor inserts no '*': the evaluator's own
         # implicit operator is used, e.g. "a / b(c)"
         for m in re.finditer(r" \* (?=\()", src):
-            juxp.append([src[: m.start()] + src[m.end() :], src])
+            glued = src[: m.start()] + src[m.end() :]
+            # under known finding K7 the glued group binds to the value before it first; when that
+            # value is an exponent, pint's reading needs a real power of a symbolic base, which the
+            # rational encoding cannot express: such strings are outside the bounded claim
+            if re.search(r"\*\*\s*-?\s*[a-d]\(", glued):
+                continue
+            juxp.append([glued, src])
         # a name directly after a closing parenthesis: "(a + b)c" -- the evaluator's implicit
         # operator with a NAME on the right
         for m in re.finditer(r"(?<=\)) \* (?=[a-d])", src):
